@@ -234,6 +234,12 @@ class Tr:
         self.consts = spec.get("consts", {})  # python text -> lean text (e.g. enum members)
         self.vars = []  # in order of first appearance
         self.funparams = []
+        # --- extensions (C16): optional arguments, comprehension-bound variables, keyword dictionaries
+        self.opts = set(spec.get("opts", []))  # parameters of type `Option ty` (Python: value or None)
+        self.unwrapped = {}  # optional parameter -> name of its value inside a `some` branch
+        self.bound = set()  # comprehension variables in scope
+        self.elemfuns = []  # (lean name, "num" | "bool"): attributes of a comprehension variable, as functions of the element
+        self.kwdicts = spec.get("kwdicts", {})  # python dict expression text -> prefix; `d.get('k', x)` ==> Option.getD <prefix>_k x
         self.bound = set()  # names bound by `let` inside a Block kernel (not parameters)
 
     def var(self, text):
@@ -263,11 +269,103 @@ class Tr:
             return s if fr >= 0 else f"(-{s})"
         raise ExtractError(f"unsupported literal {v!r}")
 
+    def _elemfun(self, e, kind):
+        """`v.attr` for a comprehension variable v ==> `(v_attr v)` with `v_attr` a function parameter of the kernel"""
+        if isinstance(e, ast.Attribute) and isinstance(e.value, ast.Name) and e.value.id in self.bound:
+            fn = _san(f"{e.value.id}_{e.attr}")
+            for n, k in self.elemfuns:
+                if n == fn and k != kind:
+                    raise ExtractError(f"`{ast.unparse(e)}` used both as a number and as a boolean")
+            if (fn, kind) not in self.elemfuns:
+                self.elemfuns.append((fn, kind))
+            return f"({fn} {_san(e.value.id)})"
+        return None
+
+    def _is_none_test(self, t):
+        """`x is None` / `x is not None` on an optional parameter ==> (lean name of x, True if the test is `is not None`)"""
+        if isinstance(t, ast.Compare) and len(t.ops) == 1 and isinstance(t.ops[0], (ast.Is, ast.IsNot)) and isinstance(t.comparators[0], ast.Constant) \
+                and t.comparators[0].value is None and isinstance(t.left, (ast.Name, ast.Attribute)):
+            x = self.rename.get(ast.unparse(t.left), _san(ast.unparse(t.left)))
+            if x in self.opts:
+                return self.var(ast.unparse(t.left)), isinstance(t.ops[0], ast.IsNot)
+        return None
+
+    def _opt_name(self, e):
+        if isinstance(e, (ast.Name, ast.Attribute)):
+            x = self.rename.get(ast.unparse(e), _san(ast.unparse(e)))
+            if x in self.opts:
+                return x
+        return None
+
+    def lstcomp(self, lc):
+        """[elt for v in xs if cond ...] ==> List.map (fun v => elt) (List.filter (fun v => cond) xs); attributes of `v`
+        become functions of the (abstract) element type ι"""
+        if len(lc.generators) != 1 or lc.generators[0].is_async or not isinstance(lc.generators[0].target, ast.Name):
+            raise ExtractError(f"unsupported comprehension `{ast.unparse(lc)}`")
+        gen = lc.generators[0]
+        v = gen.target.id
+        it = self.var(ast.unparse(gen.iter))
+        self.spec.setdefault("lists", set()).add(it)
+        self.spec.setdefault("list_elem", {})[it] = "ι"
+        self.bound.add(v)
+        try:
+            conds = [self.boolean(c) for c in gen.ifs]
+            elt = self.num(lc.elt)
+        finally:
+            self.bound.discard(v)
+        base = it
+        if conds:
+            base = f"(List.filter (fun {_san(v)} => {' && '.join(conds)}) {base})"
+        return f"(List.map (fun {_san(v)} => {elt}) {base})"
+
+    def _num_ext(self, e, t):
+        """extensions of `num` (C16): element attributes, optional parameters, `kwargs.get`. Returns None when not applicable."""
+        ef = self._elemfun(e, "num")
+        if ef is not None:
+            return ef
+        ox = self._opt_name(e)
+        if ox is not None:
+            self.var(t)
+            if ox in self.unwrapped:
+                return self.unwrapped[ox]
+            raise ExtractError(f"optional `{t}` used as a value where it may be None")
+        if isinstance(e, ast.IfExp) and self._is_none_test(e.test) is not None:
+            x, is_not = self._is_none_test(e.test)
+            some_b, none_b = (e.body, e.orelse) if is_not else (e.orelse, e.body)
+            v = x + "_v"
+            self.unwrapped[x] = v
+            try:
+                sb = self.num(some_b)
+            finally:
+                del self.unwrapped[x]
+            nb = self.num(none_b)
+            return f"(match {x} with | some {v} => {sb} | none => {nb})"
+        if isinstance(e, ast.BoolOp) and isinstance(e.op, ast.Or) and len(e.values) == 2 and self._opt_name(e.values[0]) is not None:
+            # Python `x or y` on an optional number: y when x is None *or falsy (0)*; objects other than numbers are truthy
+            x = self.var(ast.unparse(e.values[0]))
+            v = x + "_v"
+            rest = self.num(e.values[1])
+            truthy = f"(!({v} == {self.lit(0)}))" if self.ty in ("α", "Int") else "true"
+            return f"(match {x} with | some {v} => (if {truthy} then {v} else {rest}) | none => {rest})"
+        if isinstance(e, ast.Call) and isinstance(e.func, ast.Attribute) and e.func.attr == "get" and ast.unparse(e.func.value) in self.kwdicts \
+                and len(e.args) == 2 and isinstance(e.args[0], ast.Constant) and isinstance(e.args[0].value, str):
+            # kwargs.get('k', default): the override dictionary is modelled by one optional parameter per key
+            x = _san(f"{self.kwdicts[ast.unparse(e.func.value)]}_{e.args[0].value}")
+            self.opts.add(x)
+            if x not in self.vars:
+                self.vars.append(x)
+            return f"(match {x} with | some {x}_v => {x}_v | none => {self.num(e.args[1])})"
+        return None
+
     def num(self, e):
         """numeric-valued expression"""
         t = ast.unparse(e)
         if t in self.consts:
             return self.consts[t]
+        if self.opts or self.bound or self.kwdicts:
+            ext = self._num_ext(e, t)
+            if ext is not None:
+                return ext
         if t in self.opaque:
             if self.opaque[t] not in self.vars:
                 self.vars.append(self.opaque[t])
@@ -330,6 +428,8 @@ class Tr:
                 return "(" + fn + " " + " ".join(self.num(a) for a in args) + ")"
             if f == "max" and len(args) == 1 and isinstance(args[0], ast.BinOp) and isinstance(args[0].op, ast.Add) and isinstance(args[0].left, ast.List) and len(args[0].left.elts) == 1:
                 # max([a] + xs)  ==> fold of max over xs starting from a
+                if isinstance(args[0].right, ast.ListComp):
+                    return f"(List.foldl max {self.num(args[0].left.elts[0])} {self.lstcomp(args[0].right)})"
                 xs = self.var(ast.unparse(args[0].right))
                 self.spec.setdefault("lists", set()).add(xs)
                 return f"(List.foldl max {self.num(args[0].left.elts[0])} {xs})"
@@ -589,6 +689,9 @@ class Tr:
             return n
         if isinstance(e, ast.Constant) and isinstance(e.value, bool):
             return "true" if e.value else "false"
+        ef = self._elemfun(e, "bool")
+        if ef is not None:
+            return ef
         if isinstance(e, ast.BoolOp):
             op = " && " if isinstance(e.op, ast.And) else " || "
             return "(" + op.join(self.boolean(v) for v in e.values) + ")"
@@ -726,12 +829,19 @@ def translate(spec, src_cache):
             ps.append(f"(isnan : {tr.ty} → Bool)")
         else:
             ps.append(f"({fn} : {tr.ty} → {tr.ty})")
+    for fn, kind in sorted(tr.elemfuns):
+        ps.append(f"({fn} : ι → {tr.ty if kind == 'num' else 'Bool'})")
     lists = spec.get("lists", set())
+    list_elem = spec.get("list_elem", {})
     nats = spec.get("nats", set())
     elem = spec.get("elem", "β")
     for p in params:
         if p in types:
             ps.append(f"({p} : {types[p]})")
+        elif p in list_elem:
+            ps.append(f"({p} : List {list_elem[p]})")
+        elif p in tr.opts:
+            ps.append(f"({p} : Option {tr.ty})")
         elif p in lists:
             ps.append(f"({p} : List {elem if spec.get('result') == 'List' else tr.ty})")
         elif p in nats:
@@ -751,6 +861,10 @@ def translate(spec, src_cache):
     rty = "Int" if spec.get("result") in ("IntOfFloor", "IntOfFloor0", "IntExpr", "IntSel") else "Bool" if spec.get("result") == "Bool" else (f"List {elem}" if spec.get("result") == "List" else tr.ty)
     if spec.get("result") == "List" and elem == "β":
         ps.insert(0, "{β : Type}")
+    elif tr.ty not in ("α", "Int"):
+        ps.insert(0, f"{{{tr.ty} : Type}}")
+    if tr.elemfuns or list_elem:
+        ps.insert(0, "{ι : Type}")
     if spec.get("rtype"):
         rty = spec["rtype"]
     if spec.get("tyvars"):
